@@ -558,6 +558,9 @@ def gen_cond(rng, backend, i=0):
     others = [m for m in range(n) if m != d["target"]]
     # a history with deleted modes: possibly only the measured mode survives
     d["deleted"] = sorted(rng.sample(others, rng.randint(1, len(others)))) if (others and rng.random() < 0.3) else []
+    if d["kind"] == "threshold":
+        # about one photon in the measured mode, so that both outcomes (click / no click) occur
+        d["pre"] = d["pre"] + [["Dgate", [round(rng.uniform(0.7, 1.0), 3), round(rng.uniform(-2, 2), 3)], [d["target"]], False]]
     return d
 
 
@@ -1292,7 +1295,7 @@ def search_hard(ctx):
         run_wide(ctx, backend, ctx.budget(12 if backend in ("gaussian", "bosonic") else 0, 120 if backend in ("gaussian", "bosonic") else 40))
     plan = ctx.budget(
         {"gaussian": {"cond": 40, "prepg": 16, "hist": 10}, "bosonic": {"cond": 50, "prepg": 16, "hist": 10, "bmodes": 24, "msgate": 10},
-         "fock-pure": {"prepf": 10, "mfock": 16, "hfock": 6, "hist": 5}, "fock-mixed": {"prepf": 10, "mfock": 16, "hfock": 6, "hist": 5}},
+         "fock-pure": {"prepf": 10, "mfock": 24, "hfock": 6, "hist": 5}, "fock-mixed": {"prepf": 10, "mfock": 24, "hfock": 6, "hist": 5}},
         {"gaussian": {"cond": 400, "prepg": 150, "hist": 100}, "bosonic": {"cond": 500, "prepg": 150, "hist": 100, "bmodes": 240, "msgate": 100},
          "fock-pure": {"prepf": 80, "mfock": 60, "hfock": 40, "hist": 25}, "fock-mixed": {"prepf": 80, "mfock": 60, "hfock": 40, "hist": 25}})
     for backend, fams in plan.items():
